@@ -64,6 +64,7 @@ REVIEWED_MARKUP = {
     "liquid.extra.filters.translate.NGetText.__call__|text": ("escaped-message", "as Translate"),
     "liquid.extra.filters.translate.PGetText.__call__|text": ("escaped-message", "as Translate"),
     "liquid.extra.filters.translate.NPGetText.__call__|text": ("escaped-message", "as Translate"),
+    "liquid.extra.filters.translate.BaseTranslateFilter.format_message|escaped": ("already-markup", "re-wraps the percent-doubled copy of a message that already was Markup (isinstance test); doubling % adds no markup"),
     "liquid.extra.tags.extends_tag.BlockDrop.__getitem__|buf.getvalue()": ("rendered-output", "output of the parent block rendered into a get_buffer buffer"),
     "liquid.extra.tags.translate_tag.TranslateNode._format_message|message_text": ("template-literal", "message text of the translate block (template text with % doubled) or its catalogue translation"),
 }
@@ -231,6 +232,7 @@ def run(repo: Repo) -> Result:
         ("liquid.extra.filters.html.script_tag", "return Markup(tag).format(str(url))", "markup-format"),
         ("liquid.extra.filters.html.stylesheet_tag", "return Markup(tag).format(str(url))", "markup-format"),
         ("liquid.builtin.filters.string.escape", "return markupsafe_escape(str(val))", "escape-filter"),
+        ("liquid.extra.filters.translate.BaseTranslateFilter.format_message", "if isinstance(message_text, Markup):", "already-markup-test"),
     ]
     for q, frag, name in conds:
         res.ob(f"cond:{q}:{name}")
